@@ -54,14 +54,20 @@ Definition count (f : evkind -> bool) (l : list event) : Z := Z.of_nat (length (
 Definition is_started (k : evkind) : bool := match k with EStarted => true | _ => false end.
 Definition is_terminal (k : evkind) : bool := match k with ECanceled | ECompleted => true | _ => false end.
 
-Definition judge_entry (rejoin : Z -> Z -> bool) (before o : out) (x : Z * Z * Z) (st : option Z) : Z * option Z :=
+Definition judge_entry (rejoin retake : Z -> Z -> bool) (before o : out) (x : Z * Z * Z) (st : option Z) : Z * option Z :=
   let '(c, e, a) := x in
   let evs := events_for e a (x_pre o ++ x_main o ++ x_post o) in
   let after := present c e o in
   let rebuilt := if ctx_shared c then built_ctx c o else built_has c e o in
   match st with
   | None =>                                   (* not a holder before the step *)
-      let joined := after || rebuilt in
+      (* an entity that some reaction can give the context to AND some reaction can take it from again (remove of this
+         context from this entity, despawn of this entity) may join a live shared instance and leave it within one step:
+         it holds the context neither before nor after and nothing is built, yet it receives the closing events of what
+         was open when it left (never a Started: the frame's own events were queued before it joined).  Judged like a
+         joiner.  Without such a pair of reactions an entity that is absent before and after never held the context in
+         between and must receive nothing *)
+      let joined := after || rebuilt || (rejoin c e && retake c e) in
       if joined then
         (* may have joined a live shared instance (and even left again): only closing events are possible *)
         if Z.eqb (count is_started evs) 0 then (0, if after then Some (match snap_of_entry c e a (x_snaps o) with
@@ -85,14 +91,14 @@ Definition judge_entry (rejoin : Z -> Z -> bool) (before o : out) (x : Z * Z * Z
                else None)
   end.
 
-Fixpoint judge_steps (rejoin : Z -> Z -> bool) (ents : list (Z * Z * Z)) (sts : list (option Z)) (before : out) (steps : list step) (outs : list out) : Z :=
+Fixpoint judge_steps (rejoin retake : Z -> Z -> bool) (ents : list (Z * Z * Z)) (sts : list (option Z)) (before : out) (steps : list step) (outs : list out) : Z :=
   match steps, outs with
   | st :: steps', o :: outs' =>
       if x_panicked o then 8 else
-      let rs := map (fun xs => judge_entry rejoin before o (fst xs) (snd xs)) (combine ents sts) in
+      let rs := map (fun xs => judge_entry rejoin retake before o (fst xs) (snd xs)) (combine ents sts) in
       match find (fun r => negb (Z.eqb (fst r) 0)) rs with
       | Some r => fst r
-      | None => judge_steps rejoin ents (map snd rs) o steps' outs'
+      | None => judge_steps rejoin retake ents (map snd rs) o steps' outs'
       end
   | [], [] => 0
   | _, _ => 9
@@ -105,7 +111,11 @@ Definition ok (p : rcase * trace_t) : Z :=
                                                 | OInsert e' c' => Z.eqb e e' && Z.eqb c c'
                                                 | OSpawn e' cs => Z.eqb e e' && memz c cs
                                                 | _ => false end) rs in
-      judge_steps rejoin ents (map (fun _ => None) ents) (mkOut [] [] [] [] [] [] [] true true false) (s_steps sc) outs
+      let retake (c e : Z) := existsb (fun r => match r_op r with
+                                                | ORemove e' c' => Z.eqb e e' && Z.eqb c c'
+                                                | ODespawn e' => Z.eqb e e'
+                                                | _ => false end) rs in
+      judge_steps rejoin retake ents (map (fun _ => None) ents) (mkOut [] [] [] [] [] [] [] true true false) (s_steps sc) outs
   | (_, panic) => 10
   end.
 Definition bad_agree := bad agree.
